@@ -14,7 +14,7 @@ from ..core.explorer import Ctx, explore
 
 PROPERTY = "C11"
 LEVEL = "fault_enumeration"
-RULE = ("histories H1 (serial sweep of 3 designs), H2 (NSGA-II N=2, G=2: evaluate-time sync, per-generation re-sync, final sync_all), H4 (serial sweep in which one design fails transiently twice and is re-sampled), H5 (serial sweep in which the second design's synchronisation meets seven 'database is locked' answers of another writer before it gets through), H3 "
+RULE = ("histories H1 (serial sweep of 3 designs), H2 (NSGA-II N=2, G=2: evaluate-time sync, per-generation re-sync, final sync_all), H4 (serial sweep in which one design fails transiently twice and is re-sampled), H5 (serial sweep in which the second design's synchronisation meets seven 'database is locked' answers of another writer before it gets through), H6 (two designs under the gradient evaluator: rows that refer to finite-difference children by id, written before those children), H3 "
         "(sweep of 2 designs on 2 workers, every schedule with <=1 (thorough 2) pre-emptions): the writer process is killed (os._exit, no "
         "clean-up) at EVERY event index (objective entry/exit, before/after each connect / execute / commit); additionally SIGKILL "
         "immediately before EVERY file-mutating system call (pwrite64, unlink, ftruncate, fsync, ...) of H1 (thorough: H1, H2, H4 and H5), which reaches death inside a commit. After each death the "
@@ -99,7 +99,7 @@ def run_history(name, db, ack_fd, on_point, ctx=None, seed=0):
         store.sync_individual, store.sync_all = si, sa
         problem.data_store = store
         os.write(ack_fd, b"C\n")            # the store has been created (constructor returned)
-    if name in ("H1", "H2", "H4", "H5"):
+    if name in ("H1", "H2", "H4", "H5", "H6"):
         hooks = Hooks(None, on_point=on_point, zero_timeout=False)
         if name == "H5":
             hooks.ctx, hooks.extlock_max = forced, 7
@@ -107,7 +107,21 @@ def run_history(name, db, ack_fd, on_point, ctx=None, seed=0):
             attach(SqliteDataStore(problem, database_name=db))
             if hasattr(on_point, "mark"):
                 on_point.mark("created")
-            if name in ("H1", "H4", "H5"):
+            if name == "H6":
+                # designs whose rows refer to other individuals by id (finite-difference children of the gradient
+                # evaluator, written after their parent): a crash leaves references to rows that were never written
+                from artap.algorithm import Algorithm, EvaluatorType
+                alg = Algorithm(problem, evaluator_type=EvaluatorType.GRADIENT)
+                batch = [Individual([0.25, -1.0]), Individual([0.75, 1.5])]
+                for ind in batch:
+                    problem.individuals.append(ind)
+                alg.evaluate(batch)
+                for ind in batch:
+                    for child in ind.children:
+                        if child not in problem.individuals:
+                            problem.individuals.append(child)
+                problem.data_store.sync_all()
+            elif name in ("H1", "H4", "H5"):
                 if name == "H4":
                     sh = shim_mod.install()
                     sh.reset(77 + seed, None)
@@ -356,7 +370,7 @@ def replay(sub, case):
 
 def run(tier, seed):
     import artap.algorithm_sweep, artap.algorithm_NSGAII, artap.datastore  # noqa: F401,E401
-    shards = [("event", "H1", seed), ("event", "H2", seed), ("event", "H4", seed), ("event", "H5", seed)]
+    shards = [("event", "H1", seed), ("event", "H2", seed), ("event", "H4", seed), ("event", "H5", seed), ("event", "H6", seed)]
     scheds = h3_schedules(2 if tier == "thorough" else 1)
     shards += [("h3", tuple(s), seed) for s in scheds]
     extra = {"h3_schedules": len(scheds)}
